@@ -5,7 +5,7 @@ usage: python -m harness.w_fp job.json outprefix          (fresh interpreter, PY
 job = {"mode": "claripy" | "z3ref",      z3ref: self-test of spec/FP.tla, the recorded value comes from an independent
                                          z3 API term (claripy is not imported at all)
        "gen": "pool" | "rand" | "list",  pool: deterministic pool-exhaustive cases of one group; rand: seeded extras
-       "fmt": "d" | "f", "group": "arith"|"cmp"|"unary"|"toint"|"fptofp"|"inttofp"|"bits"|"d2", "ops": [...],
+       "fmt": "d" | "f", "group": "arith"|"cmp"|"unary"|"toint"|"fptofp"|"inttofp"|"bits"|"cancel"|"d2", "ops": [...],
        "pool": "small" | "quick" | "full" | "closure", "part": k, "nparts": n, "solved": N (every N-th case, 0 never), "fresh_every": N, "seed": s, "n": count,
        "cases": [...] (gen=list)}
 
@@ -234,6 +234,23 @@ def gen_pool(job):
         # a numeral written as a Python double, constructed at this format (claripy.FPV(value, sort))
         for x in pool_fp("d", level if level != "closure" else "full"):
             yield case("fpv", "RNE", "d", x, fmt2=fmt)
+    elif grp == "cancel":
+        # compositions of the bit-pattern conversions, i.e. the shapes of the fpToIEEEBV/fpToFP cancellation rewrites
+        # (simplifications.py fptobv_simplifier / fptofp_simplifier).  NaN patterns are left out: fpToIEEEBV(NaN) is
+        # only specified up to the NaN class.  On the solved side the operand is symbolic, so the rewrites fire.
+        w = sum(FMT[fmt])
+        Q = [x for x in P if not is_nan_pattern(x, fmt)]
+        for i, x in enumerate(Q):
+            how = "meth" if i % 2 else "fn"
+            # numeric int->fp of the float's own bit pattern: fpToFP(rm, fpToIEEEBV(x), sort) -- NOT the identity
+            for op in ("sbvtofp", "ubvtofp"):
+                for fmt2 in (fmt, other):
+                    for rm in RMS:
+                        yield case(op, rm, fmt, 0, fmt2=fmt2, size=w, wa=w, how=how,
+                                   inner={"iop": "toieee", "irm": "RNE", "ia": x, "ib": None, "ipos": 1})
+            # bit-cast round trips: fpToFP(fpToIEEEBV(x), sort) and fpToIEEEBV(fpToFP(bv, sort)) -- the identity
+            yield case("bvtofp", "RNE", fmt, 0, how=how, inner={"iop": "toieee", "irm": "RNE", "ia": x, "ib": None, "ipos": 1})
+            yield case("toieee", "RNE", fmt, 0, how=how, inner={"iop": "bvtofp", "irm": "RNE", "ia": x, "ib": None, "ipos": 1})
     elif grp == "d2":
         # depth-2 trees: outer arithmetic/comparison/conversion over one inner arithmetic result (deterministic sample)
         rng = random.Random(4242 + (0 if fmt == "d" else 1))
